@@ -16,7 +16,9 @@ import zlib
 import dns.exception
 import dns.message
 import dns.name
+import dns.edns
 import dns.renderer
+import dns.rrset
 import dns.tsig
 
 from harness.core import VERIF, Ctx, enc_labels, hx
@@ -37,7 +39,8 @@ RULE = (
     "suffix with or equal a rendered name, exact and inexact caller-supplied sizes, fillers tuned so that the unpadded size is already "
     "block-aligned in about half of the padded scripts, tight and generous max_size; a reserve() that fails first, release_reserved() "
     "twice, reserve(negative), an add that goes back to an earlier section, a relative name inside RDATA without origin), limit sweeps "
-    "with padding on, an RDATA longer than 65535 octets, and through step-by-step Renderer traces "
+    "with padding on, an RDATA longer than 65535 octets, received signed messages (from_wire with a keyring) that are optionally modified, "
+    "padded with use_edns(pad=…) and rendered again with the TSIG re-emitted or signed anew, and through step-by-step Renderer traces "
     "that keep adding after a TooBig; a case is non-trivial if its key (kind + content) is new"
 )
 TRUSTED_BASE = C03.TRUSTED_BASE
@@ -466,6 +469,78 @@ def eval_robj(ctx: Ctx, c: dict):
         fail(ctx, f"C08/renderer/{clause}", text, c)
 
 
+def eval_reemit(ctx: Ctx, c: dict):
+    """a signed message as the receiving side holds it — from_wire(keyring) —, optionally modified, given padding with
+    use_edns(pad=…) and rendered again: the TSIG record it carries is re-emitted as is (want_tsig_sign false) or, after
+    use_tsig, signed anew.  Either way the TSIG owner must be written uncompressed, because the padding counted it so."""
+    pin_time()
+    m0, key = mk_message(c)
+    origin = m0.origin
+    try:
+        w0 = m0.to_wire(max_size=65535, want_shuffle=False)
+        m1 = dns.message.from_wire(w0, keyring={key.name: key}, origin=origin)
+    except Exception as e:  # noqa: BLE001
+        ctx.count("reemit.unusable:" + type(e).__name__)
+        return
+    if not m1.had_tsig or m1.tsig is None:
+        fail(ctx, "C08/reemit/tsig-not-kept", "from_wire(keyring) of a signed message has no tsig", c)
+        return
+    if c.get("modify"):
+        m1.sections[3].append(dns.rrset.from_text("added.example.", 60, "IN", "A", "192.0.2.9"))
+    if c["resign"]:
+        t = c["tsig"]
+        m1.use_tsig(key, fudge=t["fudge"], original_id=t["orig_id"], tsig_error=t["error"], other_data=bytes.fromhex(t["other"]))
+    o = c["opt"] or {"ttl": 0, "payload": 1232, "options": []}
+    options = [dns.edns.option_from_wire(t_, bytes.fromhex(b), 0, len(bytes.fromhex(b))) for t_, b in o["options"]]
+    ms, pt = c["max_size"], c["prefer_truncation"]
+    stale = bytes(m1.tsig[0].to_wire()) if not c["resign"] else None
+    outs = []
+    c1 = None
+    for pad in c["pads"]:
+        m1.use_edns((o["ttl"] >> 16) & 0xFF, o["ttl"], o["payload"], c.get("request_payload", 0), options, pad)
+        if c1 is None:
+            c1 = case_of_message(m1, kind="reemit")
+            if c["resign"]:
+                c1["tsig"] = dict(c["tsig"])
+        line, w = render(m1, ms, pt)
+        if c["resign"]:
+            outs.append(f"{pad}={digest(c1, line, w)}")
+        else:
+            outs.append(f"{pad}=" + ("E" + line.split(" ")[1] if w is None else f"{len(w)}.{zlib.adler32(w)}"))
+        ctx.count("reemit." + ("ok" if w is not None else line.split(" ")[1]))
+        if w is None:
+            if line not in ("err TooBig",):
+                fail(ctx, f"C08/reemit/raises/{line.split(' ')[1]}", f"pad={pad} max_size={ms}: {line}", dict(c, pads=[pad]))
+            continue
+        eff = eff_limit(ms, c.get("request_payload", 0))
+        cc = dict(c, pads=[pad])
+        if len(w) > eff:
+            fail(ctx, "C08/reemit/exceeds-limit", f"{len(w)} octets under an effective limit of {eff}", cc)
+        if len(w) % pad != 0:
+            trig = "tsig-owner-compressed" if tsig_owner_compressed(w) else "other"
+            fail(ctx, f"C08/reemit/padding-multiple/{trig}",
+                 f"from_wire(keyring) → use_edns(pad={pad}) → to_wire(): {'re-signed' if c['resign'] else 're-emitted'} TSIG, final length {len(w)} = {len(w) % pad} mod {pad}", cc)
+        try:
+            m2 = dns.message.from_wire(w, keyring=lambda msg, name: False, origin=origin)
+        except Exception as e:  # noqa: BLE001
+            fail(ctx, f"C08/reemit/unparseable/{type(e).__name__}", f"pad={pad}: the re-rendered message does not parse: {e}", cc)
+            continue
+        if not m2.had_tsig or m2.opt is None or not any(int(x.otype) == 12 for x in m2.options):
+            fail(ctx, "C08/reemit/lost-OPT-or-TSIG", f"pad={pad}: had_tsig={m2.had_tsig} opt={m2.opt is not None}", cc)
+            continue
+        if stale is not None and (bytes(m2.tsig[0].to_wire()) != stale or m2.tsig.name != m1.tsig.name):
+            fail(ctx, "C08/reemit/tsig-changed", f"pad={pad}: the TSIG record that was only re-emitted differs from the one received", cc)
+        for sx in range(4):
+            a, b = m1.sections[sx], m2.sections[sx]
+            if len(b) > len(a) or any(same_rrset(x, y, origin, None) for x, y in zip(a, b)) or (not pt and len(a) != len(b)):
+                fail(ctx, "C08/reemit/not-a-prefix", f"pad={pad}: section {sx} of the re-rendered message is not a prefix of the original's", cc)
+                break
+    toks = model_tokens(c1) if c["resign"] else msg_tokens(c1)
+    ctx.corr(f"c08.pads {ms} {int(pt)} {','.join(str(p) for p in c['pads'])} {toks}", "ok " + " ".join(outs), c)
+    ctx.count("reemit")
+    ctx.count("reemit." + ("resign" if c["resign"] else "as-is"))
+
+
 def true_full_size(c, m):
     """the size of the complete rendering, computed without Message.to_wire: the sections through a Renderer with an
     unreachable limit, plus the OPT and (uncompressed) TSIG records from the case"""
@@ -602,6 +677,8 @@ def eval_case(ctx: Ctx, c: dict):
         eval_limits(ctx, c)
     elif k == "robj":
         eval_robj(ctx, c)
+    elif k == "reemit":
+        eval_reemit(ctx, c)
     else:
         raise ValueError(k)
 
@@ -791,6 +868,21 @@ def generate(ctx: Ctx, scale: int, rng):
             continue
         c["limits"] = lims
         run_one(ctx, c)
+    # a received signed message, padded and rendered again (TSIG re-emitted as is, or signed anew)
+    for i in range(n(40)):
+        c = gen_sized(rng, rng.choice([60, 150, 300, 520]), want_opt=rng.chance(1, 2), want_tsig=True,
+                      tsig_mode="compressible" if rng.chance(3, 4) else None)
+        if c is None or c["tsig"] is None:
+            ctx.count("gen.rejected")
+            continue
+        c["kind"] = "reemit"
+        c["resign"] = rng.chance(1, 3)
+        c["modify"] = rng.chance(1, 3) and c["origin"] is None
+        c["pads"] = PADS if i % 8 == 0 else sorted(set([rng.choice(PADS) for _ in range(6)] + [16, 128]))
+        c["request_payload"] = rng.choice([0, 0, 1232])
+        c["max_size"] = rng.choice([0, 65535, 512, 1232])
+        c["prefer_truncation"] = rng.chance(1, 2)
+        run_one(ctx, c)
     # every limit around the message size with padding switched on (the OPT reserve must include the PADDING option header)
     for i in range(n(3)):
         c = gen_sized(rng, rng.choice([520, 560, 640]), want_opt=True, want_tsig=rng.chance(1, 2))
@@ -923,6 +1015,8 @@ LEVEL = {
             "UPDATE); result_parses_origin — the same for messages with an origin and relative names, parsed with that origin: the prefix after "
             "relativisation; padding_multiple — with padding the length, TSIG included, is a multiple of the block for every "
             "message, limit and mode (the TSIG is rendered against a fresh compression table, so its reserve is exact: repaired D07); "
+            "padding_multiple_reemit — also for a message parsed with a key, modified or not, padded with use_edns and rendered again with its TSIG "
+            "re-emitted as received or signed anew (the table is cleared because a TSIG is present, not because it was signed); "
             "renderer_padding_multiple — the same through the Renderer object (add_opt with the exact opt_size/tsig_size, write_header, "
             "add_tsig/add_multi_tsig = _write_tsig): the signed message is a multiple of the block in any renderer state, aligned or not, "
             "compressible key name or not, and the TSIG leaves the table alone; "
